@@ -13,7 +13,8 @@ LEVEL = "exploration"
 RULE = ("seeded call trees: each node is assigned to peer A or B, has 0-4 children called in order (sync or async), "
         "positional and keyword arguments drawn from shapes {plain scalar, nested tuple mixing values and references, "
         "list/dict/object reference, callable that the callee invokes, reference received from the caller passed on}, may "
-        "raise a built-in exception after its children ran and may catch a (base) class from its children; depth <= 8 "
+        "raise a built-in exception (Exception subclasses, and GeneratorExit / BaseException which are not) after its children ran "
+        "and may catch a (base) class from its children; depth <= 8 "
         "quick / <= 30 thorough. distinct = canonical tree shape (peers, fan-out, raise/catch, arg shapes); non-trivial = "
         "crosses the wire at least twice")
 ASSUMPTIONS = ["both peers live in one process; peer B is served by one thread (serve_all), peer A by the driver thread",
